@@ -437,19 +437,19 @@ Proof.
   - (* ONew *)
     rewrite find_span_app in H. destruct (find_span i (spans st)) as [s'|] eqn:E.
     + inversion H; subst s'. destruct (IH i s E) as (init & recs & Hh & Hf).
-      rewrite Hh. exists init, (recs ++ []). split; [reflexivity|]. rewrite app_nil_r. exact Hf.
+      rewrite Hh. exists init, recs. simpl. rewrite app_nil_r. auto.
     + rewrite FN by reflexivity. simpl. destruct (i =? i0); [|discriminate]. inversion H; subst. simpl.
       exists vals, []. split; reflexivity.
-  - destruct (IH i s H) as (init & recs & Hh & Hf). rewrite Hh. exists init, (recs ++ []). rewrite app_nil_r. auto.
-  - destruct (IH i s H) as (init & recs & Hh & Hf). rewrite Hh. exists init, (recs ++ []). rewrite app_nil_r. auto.
+  - destruct (IH i s H) as (init & recs & Hh & Hf). rewrite Hh. exists init, recs. simpl. rewrite app_nil_r. auto.
+  - destruct (IH i s H) as (init & recs & Hh & Hf). rewrite Hh. exists init, recs. simpl. rewrite app_nil_r. auto.
   - (* ORecord *)
     rewrite find_span_update in H. destruct (i =? i0) eqn:Ei.
     + destruct (find_span i (spans st)) as [s'|] eqn:E; [|discriminate]. simpl in H. inversion H; subst s. clear H.
       destruct (IH i s' E) as (init & recs & Hh & Hf). rewrite Hh. simpl. rewrite Ei.
       exists init, (recs ++ [vals]). split; [reflexivity|]. simpl. rewrite fields_after_snoc, Hf. reflexivity.
     + destruct (IH i s H) as (init & recs & Hh & Hf). rewrite Hh. simpl. rewrite Ei.
-      exists init, (recs ++ []). rewrite app_nil_r. auto.
-  - destruct (IH i s H) as (init & recs & Hh & Hf). rewrite Hh. exists init, (recs ++ []). rewrite app_nil_r. auto.
+      exists init, recs. rewrite app_nil_r. auto.
+  - destruct (IH i s H) as (init & recs & Hh & Hf). rewrite Hh. exists init, recs. simpl. rewrite app_nil_r. auto.
 Qed.
 
 (** every line a history writes is the record of one of its events in the state reached by the operations before it *)
@@ -505,10 +505,10 @@ Proof.
 Qed.
 
 (** ... second face: an explicit ROOT event is still attributed to the entered span *)
-Theorem F10_refuted_root : forall c en, fx10 c = false ->
+Theorem F10_refuted_root : forall c, fx10 c = false ->
   let st := state_after c [ONew 0 (bs "other") PRoot []; OEnter 0] in
   event_span c st PRoot = Some 0 /\ spec_event_span st PRoot = None.
-Proof. intros [a b] en H. simpl in H. subst a. split; reflexivity. Qed.
+Proof. intros [a b] H. simpl in H. subst a. split; reflexivity. Qed.
 
 (** F143: two fields with one name at one event callsite give an object with a duplicate key *)
 Theorem F143_refuted : forall c o en st p,
